@@ -9,11 +9,26 @@ def races(stderr):
     """Race detector reports: one key per pair of top frames inside the repository."""
     out = []
     for rep in re.findall(r"WARNING: DATA RACE(.*?)==================", stderr, flags=re.S):
-        frames = re.findall(r"\n\s+(\S+\(\))\n\s+(/repo/\S+?):(\d+)", rep)
+        frames = re.findall(r"\n\s+(\S+\(\))\n\s+(" + re.escape(lib.REPO) + r"/\S+?):(\d+)", rep)
         where = frames[0] if frames else ("?", "?", "0")
-        key = "C17/data-race/%s:%s" % (os.path.relpath(where[1], "/repo") if where[1] != "?" else "?", where[0].split("/")[-1])
+        key = "C17/data-race/%s:%s" % (os.path.relpath(where[1], lib.REPO) if where[1] != "?" else "?", where[0].split("/")[-1])
         out.append((key, rep.strip()[:1500]))
     return out
+
+
+def crashed(verdict, what, code, err, gen):
+    """A harness that dies is normally a broken check (exit 2) -- unless the Go runtime itself says why: an unsynchronised
+    map access (fatal, not recoverable) or a race report are behaviours of the library under the concurrent driver."""
+    rs = races(err)
+    m = re.search(r"fatal error: (concurrent map [a-z ]+)", err)
+    if m:
+        fr = re.findall(r"\n(github\.com/PapaCharlie/go-restli/\S+?)\(", err)
+        verdict.add("C17/fatal/%s/%s" % (m.group(1).replace(" ", "-"), fr[0].split("/")[-1] if fr else "?"),
+                    "the Go runtime aborted the process: %s (first library frame %s)" % (m.group(1), fr[0] if fr else "?"), dict(gen=gen, stderr=err[-3000:]))
+        return rs
+    if rs:
+        return rs
+    raise lib.Broken("%s failed with exit %d (%s): %s" % (what, code, gen, err[-2000:]))
 
 
 def run(tier, seed, replay):
@@ -73,7 +88,9 @@ def run(tier, seed, replay):
             code, out, err, wall = lib.run_bin(binp, ["-n", "8" if tier == "quick" else "16", "-iters", "300" if tier == "quick" else "1500", "-procs", str(procs)],
                                                timeout=3000, env=env)
             if code not in (0, 66):
-                raise lib.Broken("conc harness failed (%s): %s" % (gen, err[-2000:]))
+                for k, rep in crashed(verdict, "conc harness", code, err, gen):
+                    race_keys.setdefault(k, rep)
+                continue
             for k, rep in races(err):
                 race_keys.setdefault(k, rep)
             for line in out.splitlines():
